@@ -227,7 +227,7 @@ func (g *Gen) runCensus(cs *Census) *Obligation {
 		if len(cs.Pkgs) > 0 {
 			in := false
 			for _, pn := range cs.Pkgs {
-				if p.Name() == pn {
+				if pkgName(p) == pn {
 					in = true
 				}
 			}
@@ -269,7 +269,7 @@ func (g *Gen) runCensus(cs *Census) *Obligation {
 	if len(bad) > 0 {
 		o.Status = "refuted"
 		o.Output = "call sites outside the functions under contract: " + strings.Join(bad, "; ")
-	} else if found == 0 {
+	} else if found == 0 && !(len(cs.Within) == 1 && cs.Within[0] == "none") {
 		o.Status = "undischarged"
 		o.Output = "no call site found at all (callee renamed?)"
 	} else {
